@@ -326,7 +326,8 @@ def active_vertices_not_adjacent(
         if isinstance(is_active, BoolArray2D):
             raise TypeError("'is_active' should be sequence-like if graph is specified")
         for i, j in graph:
-            solver.ensure(~(is_active[i] & is_active[j]))
+            # `is_active` may hold plain Python bools: `~(a & b)` on two of them is an int
+            solver.ensure(BoolExpr(Op.NOT, [BoolExpr(Op.AND, [is_active[i], is_active[j]])]))
 
 
 @overload
